@@ -19,6 +19,30 @@ import (
 
 var raceLogOff = map[string]int64{}
 
+// raceLogCut: size of each log file when the run's teardown began; what is reported after that point is the
+// teardown's own concurrency (all remaining tasks unwind at once, locks are no longer honoured), not the system's.
+var raceLogCut = map[string]int64{}
+var raceCutTaken bool
+
+func init() {
+	sim.BeforeTeardown = func() {
+		if !simrt.RaceOn {
+			return
+		}
+		prefix := os.Getenv("VERIF_RACE_LOG")
+		if prefix == "" {
+			return
+		}
+		files, _ := filepath.Glob(prefix + "*")
+		for _, f := range files {
+			if st, err := os.Stat(f); err == nil {
+				raceLogCut[f] = st.Size()
+			}
+		}
+		raceCutTaken = true
+	}
+}
+
 type raceAccess struct {
 	kind   string
 	frames [][2]string // function, file:line
@@ -118,6 +142,7 @@ func harvestRaces(prop string) []sim.Violation {
 	}
 	files, _ := filepath.Glob(prefix + "*")
 	var vs []sim.Violation
+	defer func() { raceCutTaken = false }()
 	for _, f := range files {
 		b, err := os.ReadFile(f)
 		if err != nil {
@@ -128,7 +153,14 @@ func harvestRaces(prop string) []sim.Violation {
 			continue
 		}
 		raceLogOff[f] = int64(len(b))
-		vs = append(vs, parseRaceReports(prop, string(b[off:]))...)
+		end := int64(len(b))
+		if cut, ok := raceLogCut[f]; ok && cut >= off && cut < end {
+			end = cut
+		} else if !ok && raceCutTaken {
+			end = off // the file did not exist when the teardown began
+		}
+		delete(raceLogCut, f)
+		vs = append(vs, parseRaceReports(prop, string(b[off:end]))...)
 	}
 	return vs
 }
